@@ -6,7 +6,7 @@
 
 extern "C" int LLVMFuzzerTestOneInput(const uint8_t* data, size_t size) {
   if (size < 1) return 0;
-  long mask = data[0] & 127; if (!mask) mask = 127; ++data; --size;
+  long mask = (data[0] & 127) | ((data[0] & 128) ? 0 : 384); if (!mask) mask = FULLMASK; ++data; --size;   // (bit 7 clear: the two prefix-named entries are in the table)
   std::vector<std::string> argv; argv.push_back("prog");
   std::string cur;
   for (size_t i = 0; i <= size; ++i) {
@@ -16,7 +16,7 @@ extern "C" int LLVMFuzzerTestOneInput(const uint8_t* data, size_t size) {
   }
   std::vector<PoolOpt> tbl; for (int k = 0; k < NPOOL; ++k) if (mask & (1 << k)) tbl.push_back(POOL[k]);
   // outside the domain of the statement: proper prefixes of known long names (GNU abbreviations), short options with optional values
-  for (auto& t : argv) if (t.size() > 2 && t[0] == '-' && t[1] == '-') { std::string name = t.substr(2, t.find('=', 2) == std::string::npos ? std::string::npos : t.find('=', 2) - 2); for (auto& o : tbl) if (o.name && name.size() < strlen(o.name) && strncmp(o.name, name.c_str(), name.size()) == 0) return 0; }
+  for (auto& t : argv) if (t.size() > 2 && t[0] == '-' && t[1] == '-') { std::string name = t.substr(2, t.find('=', 2) == std::string::npos ? std::string::npos : t.find('=', 2) - 2); if (findLong(tbl, name)) continue; for (auto& o : tbl) if (o.name && name.size() < strlen(o.name) && strncmp(o.name, name.c_str(), name.size()) == 0) return 0; }   // (a name that is itself in the table is an exact name, whatever it is a prefix of)
   RefResult R = reference(argv, tbl, nullptr);
   int argc = (int)argv.size();
   char** av = (char**)malloc(sizeof(char*) * (size_t)argc);
